@@ -19,29 +19,37 @@ from vlib import core as V
 from vlib import kernels as K
 
 ID = 'C16'
-LEVEL_TEXT = ("Theorems (Props/C16.v) about a hand model of emg3d.meshes automatic gridding, over the "
-              "reals, for all inputs: good_mg_cell_nr returns exactly the numbers p*2^n <= max_nr "
-              "(p in lowest, min_div <= n < 30), sorted; whenever _stretch returns a grid its widths are "
-              "positive, their number plus remain is nx, new widths grow by exactly the factor, the "
-              "extent covers the requested domain and equals the sum of widths, and the input widths "
-              "are an unchanged infix; whenever origin_and_widths returns a grid the number of cells is "
-              "one of cell_numbers, widths are positive, the grid covers survey and computational "
-              "domain (= domain +- min(lambda_factor*lambda, max_buffer), resp. the lambda_from_center "
-              "formula), widths outside the centre part grow by factors from the searched lists (<= "
-              "max(1, stretching)), the centre is a node / cell centre as requested, every node of the "
-              "cut vector is a mesh node, nodes removed by the cut lie strictly outside the domain, the "
-              "sea surface is (isclose) a node or the warning flag is set; no admissible candidate <=> "
-              "RuntimeError / None's; construct_mesh routes properties and direction-specific arguments "
-              "as documented. The model is tied to /repo by differential correspondence on every run.")
+LEVEL_TEXT = ("Theorems (Props/C16.v, 34 statements) about a hand model of emg3d.meshes automatic gridding, over "
+              "the reals with exact arithmetic, for ALL inputs: good_mg_cell_nr returns exactly the numbers "
+              "p*2^n <= max_nr (p in lowest, min_div <= n < 30), sorted; whenever _stretch returns a grid its "
+              "widths are positive, their number plus remain is nx, new widths grow by exactly the factor, the "
+              "extent covers the requested domain and equals the sum of widths, the input widths are an "
+              "unchanged infix; whenever origin_and_widths returns a grid (oaw_post, no side condition on the "
+              "centre part any more; sea-surface branch included): the number of cells is one of cell_numbers, "
+              "widths are positive, the grid covers the survey domain widened to the sea surface and the "
+              "computational domain (= domain +- min(lambda_factor*lambda, max_buffer), resp. the "
+              "lambda_from_center formula), widths outside the centre part grow by exactly sa / ca with sa "
+              "between 1 and stretching[0] and ca between sa and stretching[1], sea-surface cells grow by "
+              "alph < min(1.25 resp. 1.1 * stretching[0], stretching[1]), the centre is a node / cell centre as "
+              "requested (or the documented sea-surface override), every node of the cut vector is a mesh node "
+              "and the cut loses no vector node lying in the domain, the sea surface is (np.isclose formula) a "
+              "mesh node or the warning flag is set; no admissible candidate <=> RuntimeError / None's; "
+              "construct_mesh routes properties and direction-specific arguments as documented and fails "
+              "loudly. The model is tied to /repo by differential correspondence on every run, including the "
+              "arguments construct_mesh hands to origin_and_widths per direction and _seasurface directly.")
 LEVEL_NOTE = ("Hand model, not generated: the tie is the correspondence (model on exact rationals vs "
-              "emg3d.meshes, tolerance 1e-9), so code paths not reached by the generated parameter sets "
-              "are covered only by the model. Oracles (no contract unless stated): scipy brentq (the "
-              "model, like the code, re-checks alph < min(alphmax, stretching[1]); positivity and "
-              "alph >= 1 are hypotheses of the sea-surface width/ratio theorems), numpy argsort on "
-              "tied float keys (order of squeeze factors), sqrt in skin_depth (skin depths are positive "
-              "inputs), 2*pi. Not proved: float accumulation in cumsum / ** / np.sum, np.isclose "
-              "(modelled by its formula), TensorMesh construction. Theorems are over R with exact "
-              "arithmetic; floats that tie exactly may take the other branch.")
+              "emg3d.meshes, tolerance 1e-9), so code paths not reached by the generated parameter sets are "
+              "covered only by the model. Input side conditions of oaw_post (input_ok): positive skin depth of "
+              "properties[0], positive points per skin depth, positive upper width limit, strictly increasing "
+              "node vector, positive stretching factors. Oracles: scipy brentq with the contract 'answer lies "
+              "in the bracket [0.5, 10] handed to it' (Section hypothesis; the root tolerance is assumed only by "
+              "sea_surface_node_accuracy; both are checked on every recorded brentq answer by the "
+              "correspondence), numpy argsort on tied float keys (no contract needed), sqrt in skin_depth, "
+              "2*pi. NOT modelled, hence not proved: IEEE rounding (cumsum, **, np.sum are exact sums and "
+              "powers in the model; parameter sets where a float quotient ties exactly on an integer are "
+              "excluded from the correspondence), np.isclose (modelled by its formula), TensorMesh "
+              "construction, the info string. In the no-vector sea-surface branch the squeezed centre width is "
+              "only proved positive.")
 TECHNIQUE = "Coq proof (lia/lra/nra, list induction) over a hand model + differential correspondence (vm_compute on Q)"
 DESIGN_REF = "DESIGN.md section 6 C16"
 GEN = []
@@ -156,6 +164,69 @@ def argsort_perm(sd0, pps, lim):
 
 
 # ------------------------------------------------- origin_and_widths: running
+def check_brentq_contract(case, calls, dis, what):
+    """The contract the theorems assume of brentq, on the recorded answers:
+    alph in the bracket [0.5, 10] and a root of sum(tdmin*alph**k) - delta."""
+    for c in calls:
+        if c[0] == 'unreadable':
+            continue
+        tdmin, delta, n, alph = c
+        f = float(np.sum(tdmin * alph ** np.arange(1, n + 1)) - delta)
+        if not (0.5 <= alph <= 10.0) or abs(f) > 1e-8 * max(abs(delta), tdmin) * max(n, 1) ** 2:
+            dis.append({'what': f'{what}: brentq answer violates the contract assumed by the theorems '
+                                f'(bracket [0.5, 10], root)', 'case': case,
+                        'impl': {'tdmin': tdmin, 'delta': delta, 'n': n, 'alph': alph, 'f(alph)': f}})
+            return False
+    return True
+
+
+def sea_float_tie(center, w, sea, lim):
+    """True when, for one of the squeeze factors of _seasurface (no vector), the
+    number of cells floor(delta/tdmin) is decided by an EXACT integer ratio:
+    with the non-dyadic factors 0.75, 0.8, ... the float quotient may round to
+    either side, so exact arithmetic (the model) and floats may disagree.  Such
+    parameter sets are outside what the correspondence can compare."""
+    from fractions import Fraction as Fr
+    if lim is not None and np.array(lim, ndmin=1).size == 1:
+        return False                                   # only factor 1.0: dyadic, exact in floats
+    c, w, sea = Fr(float(center)), Fr(float(w)), Fr(float(sea))
+    fmn, fmx = Fr(7, 10), Fr(13, 10)
+    if lim is not None:
+        fmn, fmx = max(fmn, Fr(float(lim[0])) / w), min(fmx, Fr(float(lim[1])) / w)
+    for k in range(13):
+        f = fmn + k * (fmx - fmn) / 12
+        if f <= 0 or f == 1:
+            continue
+        r = (sea - c - f * w / 2) / (f * w)
+        if r.denominator == 1:
+            return True
+    return False
+
+
+def sea_reach_tie(dc, calls):
+    """The survey domain was widened to the sea surface (domain[1] == seasurface)
+    and brentq cells with alph != 1 end at the sea surface only up to rounding:
+    `edges[1] >= domain[1]` in _stretch is then decided by rounding noise (in the
+    implementation as well as in the model, which evaluates the same polynomial
+    exactly at the recorded float alph), so one more / one less cell above the
+    sea surface is legitimate on either side.  Such results are not comparable."""
+    sea = dc.get('seasurface')
+    if sea is None or not calls:
+        return False
+    if dc['domain'] is not None:
+        hi = dc['domain'][1]
+    elif dc['distance'] is not None:
+        hi = dc['center'] + abs(dc['distance'][1])
+    elif dc['vector'] is not None:
+        hi = max(dc['vector'])
+    else:
+        return False
+    return sea >= hi and any(c[0] != 'unreadable' and c[3] != 1.0 for c in calls)
+
+
+TIE_SKIPS = []          # (what, case) of results not compared because of sea_reach_tie
+
+
 def oaw_kwargs(case):
     kw = dict(stretching=list(case['stretching']), min_width_limits=case['limits'],
               min_width_pps=case['pps'], lambda_factor=case['lambda_factor'],
@@ -234,10 +305,23 @@ def oaw_eval_term(case, impl):
 
 def compare_oaw(case, impl, ans, dis, what='origin_and_widths'):
     """ans = parsed out_oaw value.  Appends to dis; returns True when equal."""
+    tmp = []
+    ok = _compare_oaw(case, impl, ans, tmp, what)
+    if not ok and sea_reach_tie(case, impl['brentq']) and not any(
+            'brentq' in d['what'] for d in tmp):
+        TIE_SKIPS.append((what, case))
+        return True
+    dis.extend(tmp)
+    return ok
+
+
+def _compare_oaw(case, impl, ans, dis, what='origin_and_widths'):
     warns, code, ints, pairs = ans
     if any(c[0] == 'unreadable' for c in impl['brentq']):
         dis.append({'what': f'{what}: brentq closure no longer readable (tdmin/delta/n)',
                     'case': case, 'impl': str(impl['brentq'][:2])})
+        return False
+    if not check_brentq_contract(case, impl['brentq'], dis, what):
         return False
     if code != impl['kind'] or list(warns) != impl['warns']:
         dis.append({'what': f'{what}: result kind / warnings differ', 'case': case,
@@ -321,6 +405,8 @@ def gen_oaw(rng, style=None):
         sea = center + rng.choice([-1, 0, 1, 2, 3, 5, 8, 11, 20, 27, 40, 64]) * u / 8
         if rng.random() < 0.5:
             sea = center + rng.randint(1, 9) * dmin * rng.choice([0.5, 1.0, 1.0, 1.0625])
+    while sea is not None and sea_float_tie(center, dmin, sea, lim):
+        sea += dmin / 64
     if style in 'AE':
         s0, s1 = 1.0, 1 + rng.randint(3, 14) / 1024
     elif style == 'B':
@@ -536,6 +622,11 @@ def gen_cm(rng):
     sea = None
     if rng.random() < 0.3:
         sea = center[2] + rng.choice([-2, 3, 8, 9, 16, 20, 33]) * u / 8
+        limz, ppsz = dir_value(limits, 2, kw=True), dir_value(pps, 2, kw=True)
+        dz = float(np.atleast_1d(meshes.cell_width(np.float64(sd0), 3.0 if ppsz is None else ppsz,
+                                                   limz))[0])
+        while sea_float_tie(center[2], dz, sea, limz):
+            sea += dz / 64
     pool = [4, 6, 8, 10, 12, 16, 20, 24, 32]
     cells = rng.sample(pool, rng.randint(2, 5))
     return dict(frequency=freq, mapping=mapping, properties=props, scalar_props=(nprops == 0),
@@ -884,12 +975,29 @@ def compare_calls(case, impl, code, inputs, dis):
 
 
 def compare_cm(case, impl, ans, dis, inputs=None):
+    tmp = []
+    ok = _compare_cm(case, impl, ans, tmp, inputs)
+    if not ok and not any('brentq' in d['what'] or 'origin_and_widths call' in d['what'] for d in tmp):
+        try:
+            tie = sea_reach_tie(cm_dir_cases(case)[2], impl['brentq'])
+        except Exception:
+            tie = False
+        if tie:
+            TIE_SKIPS.append(('construct_mesh', case))
+            return True
+    dis.extend(tmp)
+    return ok
+
+
+def _compare_cm(case, impl, ans, dis, inputs=None):
     warns, code, org, hx, hy, hz = ans
     mk = 10 if code in (10, 11, 12) else code
     if inputs is not None and impl['kind'] != 97 and not compare_calls(case, impl, code, inputs, dis):
         return False
     if any(c[0] == 'unreadable' for c in impl['brentq']):
         dis.append({'what': 'construct_mesh: brentq closure no longer readable', 'case': case})
+        return False
+    if not check_brentq_contract(case, impl['brentq'], dis, 'construct_mesh'):
         return False
     if mk != impl['kind'] or list(warns) != impl['warns']:
         dis.append({'what': 'construct_mesh: result kind / warnings differ', 'case': case,
@@ -1005,6 +1113,93 @@ def tie_stretch(ctx, dis):
     return n + len(cw), hist
 
 
+def tie_seasurface(ctx, dis):
+    """meshes._seasurface against the model's seasurface_adjust (all three
+    outcomes: cell moved, brentq cells appended, unchanged; warning flag)."""
+    from emg3d import meshes
+    rng = ctx.rng
+    n = 120 if ctx.thorough else 60
+    cases, lines, impls = [], [COQ_HEADER], []
+    for _ in range(n):
+        hv = rng.random() < 0.5
+        if hv:
+            ws = [K.dy_pos(rng) * 4 for _ in range(rng.randint(2, 5))]
+            e0 = K.dy(rng) * 8
+            nodes = [e0]
+            for w in ws:
+                nodes.append(nodes[-1] + w)
+            edges, center = [nodes[0], nodes[-1]], nodes[rng.randint(0, len(nodes) - 2)]
+            wl = ws[-1]
+        else:
+            wl = K.dy_pos(rng) * 4
+            center = K.dy(rng) * 8
+            edges, ws, nodes = [center - wl / 2, center + wl / 2], [wl], None
+        sea = edges[1] + wl * rng.choice([0.25, 0.5, 0.75, 1, 1, 2, 3, 1.5, 2.25, 3.0625, 4.5, 6, 0.4375,
+                                         1.125, 1.1875, 1.3125, 1.375, 1.4375, 2.875, 2.375, 1.0625])
+        if rng.random() < 0.15:
+            sea = edges[1] - wl * rng.choice([0.25, 0.5, 0.125])
+        s0, s1 = rng.choice([1.0, 1.0, 1.0625, 1.25]), rng.choice([1.5, 1.125, 2.0, 1.03125])
+        lk = rng.random()
+        lim = None if lk < 0.5 else (wl if lk < 0.65 else [wl * rng.choice([0.5, 0.75, 0.875, 1.0]),
+                                                          wl * rng.choice([1.0, 1.125, 1.25, 2.0])])
+        while not hv and sea_float_tie(center, wl, sea, lim):
+            sea += wl / 64
+        c = dict(edges=edges, widths=ws, center=center, seasurface=sea, stretching=[s0, s1],
+                 has_vector=hv, limits=lim)
+        calls = []
+        with warnings.catch_warnings(record=True) as wrec, record_brentq(calls):
+            warnings.simplefilter('always')
+            try:
+                e, w = meshes._seasurface(np.array(edges, dtype=float),
+                                          np.array(ws) if hv else np.float64(wl), center, sea, [s0, s1],
+                                          np.array(nodes) if hv else None, lim)
+                im = {'kind': 0, 'vals': [float(e[0]), float(e[1])] + [float(x) for x in np.atleast_1d(w)]}
+            except Exception as ex:
+                im = {'kind': 97, 'msg': repr(ex)}
+        im['warned'] = 2 in warn_codes(wrec)
+        im['brentq'] = calls
+        if lim is None or isinstance(lim, list):
+            fmn, fmx = 0.7, 1.3
+            if lim is not None:
+                fmn, fmx = max(fmn, lim[0] / wl), min(fmx, lim[1] / wl)
+            perm = [int(i) for i in np.argsort(abs(np.linspace(fmn, fmx, 13) - 1))]
+        else:
+            perm = list(range(13))
+        permt = '[' + '; '.join(f"{i}%nat" for i in perm) + ']'
+        lines.append(f"Eval vm_compute in out_sea (seasurface_adjust qleb qfloor (brentq_tab {brentq_term(calls)}) "
+                     f"(fun _ => {permt}) ({q(edges[0])}, {q(edges[1])}) {qlist(ws)} {q(center)} {q(sea)} "
+                     f"{q(s0)} {q(s1)} {V.coq_bool(hv)} {limits_term(lim)}).")
+        cases.append(c)
+        impls.append(im)
+    rc, out = V.coq_eval('c16_sea', '\n'.join(lines) + '\n')
+    if rc != 0:
+        dis.append({'what': '_seasurface model does not evaluate', 'log': out[-1500:]})
+        return 0, {}
+    hist = {'moved': 0, 'brentq_cells': 0, 'unchanged': 0, 'warned': 0}
+    for c, im, a in zip(cases, impls, V.eval_answers(out)):
+        warned, pairs = parse_ans(a)
+        vals = [fr(p) for p in pairs]
+        if not check_brentq_contract(c, im['brentq'], dis, '_seasurface'):
+            continue
+        if im['kind'] != 0:
+            dis.append({'what': '_seasurface raised', 'case': c, 'impl': im.get('msg')})
+            continue
+        if bool(warned) != im['warned'] or len(vals) != len(im['vals']) or any(
+                not close(x, y, max(abs(im['vals'][0]), abs(im['vals'][1]))) for x, y in zip(im['vals'], vals)):
+            dis.append({'what': '_seasurface differs', 'case': c,
+                        'impl': {'warned': im['warned'], 'vals': im['vals']},
+                        'model': {'warned': bool(warned), 'vals': [float(v) for v in vals]}})
+            continue
+        hist['warned'] += im['warned']
+        if len(im['vals']) - 2 > len(c['widths']):
+            hist['brentq_cells'] += 1
+        elif abs(im['vals'][1] - c['edges'][1]) > 0:
+            hist['moved'] += 1
+        else:
+            hist['unchanged'] += 1
+    return n, hist
+
+
 # ------------------------------------------------------------ correspondence
 COST_CAP = 4000
 
@@ -1017,9 +1212,11 @@ def batched(prefix, terms, per):
 def correspondence(ctx):
     rng = ctx.rng
     dis = []
+    del TIE_SKIPS[:]
     hist = {}
     n_good, hist['good_mg_cell_nr'] = tie_good_mg(ctx, dis)
     n_str, hist['_stretch'] = tie_stretch(ctx, dis)
+    n_sea, hist['_seasurface'] = tie_seasurface(ctx, dis)
 
     # origin_and_widths
     n_oaw = 160 if ctx.thorough else 48
@@ -1100,7 +1297,12 @@ def correspondence(ctx):
     hist['origin_and_widths'] = feats
     hist['construct_mesh'] = cmh
     hist['skipped_too_costly_for_Q'] = skipped
-    total = n_good + n_str + n_oaw + n_cm
+    hist['not_compared_sea_reach_tie'] = len(TIE_SKIPS)
+    if TIE_SKIPS:
+        ctx.notes.append(f"{len(TIE_SKIPS)} result(s) not compared: domain widened to the sea surface and brentq "
+                         f"cells (alph != 1) end there only up to rounding, so `edges[1] >= domain[1]` in "
+                         f"_stretch is decided by rounding noise")
+    total = n_good + n_str + n_sea + n_oaw + n_cm
     return {
         'evaluations': total,
         'distinct_nontrivial': len(distinct),
